@@ -1,4 +1,571 @@
+//! C12 (JWT fang) and C13 (BasicAuth fang): one abstract scenario row (specs/Auth.tla vocabulary) is concretised
+//! into real bytes, sent through the REAL fang (`ohkami::fang::{JWT, BasicAuth}`) in front of an identity-echoing
+//! handler, and the outcome is projected back onto the abstract vocabulary. Nothing here decides: the verdict is
+//! computed by specs/Trace_Auth.tla from `scn` + `obs`.
+//!
+//! Trusted base of this module: the token -> character table (`basic_char`), the key / payload / header / claim
+//! tables (`jwt_*`), the own HMAC-SHA2 + base64 code path (`mac`, crates hmac/sha2/base64 called directly, checked
+//! against Python's hmac/hashlib by the driver through `mod = "selfcheck"`), the mutation expanders, and the
+//! projection (`ran` = the handler's counter moved; payload = what the handler read through `Context<Payload>`).
+use crate::util::{self, arr, block_on, s, Rng};
+use base64::engine::general_purpose::{STANDARD, STANDARD_NO_PAD, URL_SAFE_NO_PAD};
+use base64::Engine as _;
+use hmac::{Hmac, Mac};
+use ohkami::__verif::{finalize, send, VRequest, VRouter};
+use ohkami::fang::{BasicAuth, Context, JWT};
+use ohkami::{Ohkami, Route};
 use serde_json::{json, Value};
-pub fn run(_scn: &Value) -> Value { json!({"kind": "unimplemented"}) }
-#[allow(dead_code)]
-pub fn gen(_rng: &mut crate::util::Rng, i: usize) -> Value { json!({"id": i}) }
+use sha2::{Sha256, Sha384, Sha512};
+use std::cell::{Cell, RefCell};
+
+// ------------------------------------------------------------------------------------------------ handlers
+thread_local! {
+    static RAN: Cell<u32> = const { Cell::new(0) };
+    static SEEN: RefCell<Option<String>> = const { RefCell::new(None) };
+}
+fn mark(seen: Option<String>) { RAN.with(|r| r.set(r.get() + 1)); SEEN.with(|x| *x.borrow_mut() = seen); }
+
+async fn h_plain() -> &'static str { mark(None); "ran" }
+async fn h_value(Context(p): Context<'_, Value>) -> String { let t = p.to_string(); mark(Some(t.clone())); t }
+
+#[derive(serde::Serialize, serde::Deserialize, Clone, Debug)]
+struct Claims {
+    // declaration order = sorted key order, so that serde writes the same text as `jwt_payload`
+    #[serde(default, skip_serializing_if = "Option::is_none")] exp: Option<u64>,
+    #[serde(default, skip_serializing_if = "Option::is_none")] iat: Option<u64>,
+    n: u64,
+    #[serde(default, skip_serializing_if = "Option::is_none")] nbf: Option<u64>,
+    sub: String,
+}
+async fn h_typed(Context(p): Context<'_, Claims>) -> String { let t = serde_json::to_string(p).unwrap(); mark(Some(t.clone())); t }
+
+// ------------------------------------------------------------------------------------------------ one exchange
+struct Out { panicked: bool, ran: bool, seen: Option<String>, status: u16, headers: Vec<(String, String)>, perr: String, stage: &'static str }
+
+/// request bytes -> real Request::read -> real Router::handle (fang + handler) -> real Response::send -> independent parser
+fn exchange(router: &VRouter, bytes: &[u8], head: bool) -> Out {
+    RAN.with(|r| r.set(0)); SEEN.with(|x| *x.borrow_mut() = None);
+    let r = std::panic::catch_unwind(std::panic::AssertUnwindSafe(|| block_on(async {
+        let mut rq = VRequest::new();
+        let mut rd = bytes;
+        let (res, stage) = match rq.read(&mut rd).await {
+            Ok(Some(())) => (rq.handle(router).await, "handle"),
+            Ok(None) => return (Vec::new(), "closed"),
+            Err(res) => (res, "read"),
+        };
+        let mut out = Vec::new();
+        send(res, &mut out).await;
+        (out, stage)
+    })));
+    let ran = RAN.with(|r| r.get()) > 0;
+    let seen = SEEN.with(|x| x.borrow_mut().take());
+    match r {
+        Err(_) => Out { panicked: true, ran, seen, status: 0, headers: vec![], perr: "panic".into(), stage: "panic" },
+        Ok((out, stage)) => {
+            let p = util::parse_response(&out, head);
+            Out { panicked: false, ran, seen, status: p.status, headers: p.headers, perr: p.error, stage }
+        }
+    }
+}
+
+fn request_bytes(method: &str, path: &str, auth: &[(String, Vec<u8>)]) -> Vec<u8> {
+    let mut b = format!("{method} {path} HTTP/1.1\r\nHost: v.test\r\n").into_bytes();
+    for (k, v) in auth { b.extend_from_slice(k.as_bytes()); b.extend_from_slice(b": "); b.extend_from_slice(v); b.extend_from_slice(b"\r\n"); }
+    b.extend_from_slice(b"\r\n");
+    b
+}
+
+fn show(b: &[u8]) -> String { match std::str::from_utf8(b) { Ok(t) => util::clip(t, 700), Err(_) => format!("hex:{}", util::hex(&b[..b.len().min(350)])) } }
+
+// ================================================================================================ C13 BasicAuth
+/// token -> character; injective for every seed (the representative sets are pairwise disjoint; "A" is the upper
+/// case of the representative chosen for "a"); byte lengths are fixed per token (Auth!ByteLen1 relies on it).
+fn basic_char(tok: &str, cs: u64) -> char {
+    let v = (cs % 3) as usize;
+    match tok {
+        "a" => ['a', 'k', 'z'][v], "A" => ['A', 'K', 'Z'][v], "b" => ['b', 'm', '7'][v], "d" => ['d', 'p', '~'][v],
+        ":" => ':', "sp" => ' ',
+        "c2" => ['é', 'ß', 'ж'][v], "c3" => ['日', '€', '한'][v], "c4" => ['😀', '𝄞', '🦀'][v],
+        _ => '?',
+    }
+}
+fn basic_str(toks: &Value, cs: u64) -> String { arr(toks).iter().map(|t| basic_char(s(t), cs)).collect() }
+
+fn basic_router(scn: &Value, cs: u64) -> Result<(VRouter, &'static str), String> {
+    let pairs: Vec<(String, String)> = arr(&scn["pairs"]).iter().map(|p| (basic_str(&p["u"], cs), basic_str(&p["p"], cs))).collect();
+    let ba = |i: usize| BasicAuth { username: pairs[i].0.clone(), password: pairs[i].1.clone() };
+    let nested = s(&scn["mount"]) == "nested";
+    macro_rules! app { ($fang:expr) => {{
+        let inner = Ohkami::new(($fang, "/p".GET(h_plain).POST(h_plain)));
+        if nested { finalize(Ohkami::new(("/n".By(inner),))) } else { finalize(inner) }
+    }}; }
+    let r = match (s(&scn["form"]), pairs.len()) {
+        ("single", 1) => app!(ba(0)),
+        ("array", 1) => app!([ba(0)]),
+        ("array", 2) => app!([ba(0), ba(1)]),
+        ("array", 3) => app!([ba(0), ba(1), ba(2)]),
+        ("array", 4) => app!([ba(0), ba(1), ba(2), ba(3)]),
+        ("array", 5) => app!([ba(0), ba(1), ba(2), ba(3), ba(4)]),
+        ("array", 6) => app!([ba(0), ba(1), ba(2), ba(3), ba(4), ba(5)]),
+        (f, n) => return Err(format!("unsupported BasicAuth form {f}/{n}")),
+    };
+    Ok((r, if nested { "/n/p" } else { "/p" }))
+}
+
+/// the Authorization header value (None = no header) for a header record {kind, cred}
+fn basic_header(h: &Value, cs: u64) -> Option<Vec<u8>> {
+    let cred = basic_str(&h["cred"], cs).into_bytes();
+    let b64 = STANDARD.encode(&cred);
+    let with = |scheme: &str, x: &str| Some(format!("{scheme}{x}").into_bytes());
+    let pick = |n: usize| ((cs / 7) as usize) % n.max(1);
+    match s(&h["kind"]) {
+        "basic" => with("Basic ", &b64),
+        "nopad" => with("Basic ", &STANDARD_NO_PAD.encode(&cred)),
+        "noncanon" => {
+            // same bytes for a lenient decoder, different trailing (unused) bits in the last symbol; identity when there are none
+            const A: &[u8] = b"ABCDEFGHIJKLMNOPQRSTUVWXYZabcdefghijklmnopqrstuvwxyz0123456789+/";
+            let mut e = b64.clone().into_bytes();
+            if cred.len() % 3 != 0 {
+                let i = e.iter().rposition(|c| *c != b'=').unwrap();
+                let v = A.iter().position(|c| *c == e[i]).unwrap();
+                e[i] = A[v | 1];
+                if e[i] == b64.as_bytes()[i] { e[i] = A[v | 2] }
+            }
+            with("Basic ", std::str::from_utf8(&e).unwrap())
+        }
+        "lower" => with("basic ", &b64),
+        "upper" => with("BASIC ", &b64),
+        "twospace" => with("Basic  ", &b64),
+        "nospace" => with("Basic", &b64),
+        "tab" => with("Basic\t", &b64),
+        "bearer" => with("Bearer ", &b64),
+        "digest" => with("Digest ", &b64),
+        "schemeonly" => with("Basic", ""),
+        "missing" => None,
+        "badchar" => {
+            let bad = ['!', '*', '-', '_', ' ', '.', '%'][pick(7)];
+            let mut e: Vec<char> = b64.chars().collect();
+            if e.is_empty() { e.push(bad) } else { let i = ((cs / 53) as usize) % e.len(); e[i] = bad }
+            with("Basic ", &e.into_iter().collect::<String>())
+        }
+        "trailing" => with("Basic ", &format!("{b64}A")),
+        "lead" => with("Basic ", &format!("A{b64}")),
+        "midpad" => {
+            if cred.len() >= 2 { with("Basic ", &format!("{}{}", STANDARD.encode(&cred[..1]), STANDARD.encode(&cred[1..]))) }
+            else { with("Basic ", &format!("{b64}=")) }
+        }
+        "nonutf8_last" => { let mut c = cred.clone(); c.push([0xFF, 0x80, 0xC0][pick(3)]); with("Basic ", &STANDARD.encode(&c)) }
+        "nonutf8_trunc" => { let mut c = cred.clone(); c.extend_from_slice([&[0xC3u8][..], &[0xE2, 0x82], &[0xF0, 0x9F, 0x98]][pick(3)]); with("Basic ", &STANDARD.encode(&c)) }
+        "nonutf8_mid" => {
+            // an invalid byte that is NOT the last byte: inserted at a character boundary before the end, or followed by an ASCII byte
+            let t = String::from_utf8(cred.clone()).unwrap();
+            let bounds: Vec<usize> = t.char_indices().map(|(i, _)| i).collect();
+            let mut c = cred.clone();
+            if bounds.is_empty() { c.extend_from_slice(&[0xFF, b'a']) } else { c.insert(bounds[((cs / 53) as usize) % bounds.len()], 0xFF) }
+            with("Basic ", &STANDARD.encode(&c))
+        }
+        "rawff" => { let mut v = format!("Basic {b64}").into_bytes(); v.push(0xFF); Some(v) }
+        _ => with("Unknown ", &b64),
+    }
+}
+
+fn run_basic(scn: &Value) -> Value {
+    let cs = scn["cs"].as_u64().unwrap_or(0);
+    let (router, path) = match basic_router(scn, cs) { Ok(x) => x, Err(e) => return json!({"kind": "tool-error", "msg": e}) };
+    let hv = basic_header(&scn["hdr"], cs);
+    let auth: Vec<(String, Vec<u8>)> = hv.iter().map(|v| ("Authorization".to_string(), v.clone())).collect();
+    let method = match s(&scn["method"]) { "" => "GET", m => m };
+    let bytes = request_bytes(method, path, &auth);
+    // C13 rows are single-variant: a panic is left to the worker framework (it records file:line)
+    RAN.with(|r| r.set(0));
+    let o = {
+        let r = block_on(async {
+            let mut rq = VRequest::new();
+            let mut rd = &bytes[..];
+            let (res, stage) = match rq.read(&mut rd).await {
+                Ok(Some(())) => (rq.handle(&router).await, "handle"),
+                Ok(None) => return (Vec::new(), "closed"),
+                Err(res) => (res, "read"),
+            };
+            let mut out = Vec::new();
+            send(res, &mut out).await;
+            (out, stage)
+        });
+        let p = util::parse_response(&r.0, method == "HEAD");
+        (p, r.1)
+    };
+    let ran = RAN.with(|r| r.get()) > 0;
+    let chal: Vec<&String> = o.0.headers.iter().filter(|(k, _)| k.eq_ignore_ascii_case("WWW-Authenticate")).map(|(_, v)| v).collect();
+    let chal_class = if chal.is_empty() { "none" } else if chal.iter().all(|v| v.starts_with("Basic")) { "basic" } else { "other" };
+    json!({"kind": "basic", "ran": ran, "status": o.0.status, "chal": chal_class, "stage": o.1, "perr": o.0.error,
+           "value": hv.as_deref().map(show).unwrap_or_else(|| "(no header)".into()),
+           "pairs": arr(&scn["pairs"]).iter().map(|p| json!([basic_str(&p["u"], cs), basic_str(&p["p"], cs)])).collect::<Vec<_>>()})
+}
+
+// ================================================================================================ C12 JWT
+pub fn mac(alg: &str, key: &[u8], msg: &[u8]) -> Vec<u8> {
+    match alg {
+        "HS256" => { let mut m = Hmac::<Sha256>::new_from_slice(key).unwrap(); m.update(msg); m.finalize().into_bytes().to_vec() }
+        "HS384" => { let mut m = Hmac::<Sha384>::new_from_slice(key).unwrap(); m.update(msg); m.finalize().into_bytes().to_vec() }
+        _ => { let mut m = Hmac::<Sha512>::new_from_slice(key).unwrap(); m.update(msg); m.finalize().into_bytes().to_vec() }
+    }
+}
+fn b64u(b: &[u8]) -> String { URL_SAFE_NO_PAD.encode(b) }
+const B64U: &[u8] = b"ABCDEFGHIJKLMNOPQRSTUVWXYZabcdefghijklmnopqrstuvwxyz0123456789-_";
+
+fn jwt_key(id: &str, cs: u64) -> String {
+    let v = (cs % 2) as usize;
+    match id {
+        "k1" => ["s3cr3t", "K9"][v].to_string(),
+        "k2" => [format!("{}x", "L".repeat(150)), (0..211).map(|i| (b'a' + (i % 26) as u8) as char).collect::<String>()][v].clone(),
+        "k3" => ["ключ-秘密-🔑", "pässwörd ñ"][v].to_string(),
+        _ => "OUR_JWT_SECRET_KEY".to_string(),
+    }
+}
+/// keys a token may have been signed with, by relation to the configured key (never HMAC-equivalent to it:
+/// no trailing-NUL variants, never the hash of a long key)
+fn jwt_signing_keys(rel: &str, cfg_key: &str) -> Vec<String> {
+    match rel {
+        "same" => vec![cfg_key.to_string()],
+        "other" => vec!["an-unrelated-key".to_string()],
+        "empty" => vec![String::new()],
+        "near" => {
+            let cs: Vec<char> = cfg_key.chars().collect();
+            let mut v = vec![format!("{cfg_key}x"), format!("x{cfg_key}")];
+            if cs.len() > 1 { v.push(cs[..cs.len() - 1].iter().collect()); }
+            let mut c2 = cs.clone(); let l = c2.len() - 1; c2[l] = if c2[l] == 'y' { 'w' } else { 'y' }; v.push(c2.into_iter().collect());
+            let mut c3 = cs.clone(); c3[0] = if c3[0].is_ascii_lowercase() { c3[0].to_ascii_uppercase() } else if c3[0].is_ascii_uppercase() { c3[0].to_ascii_lowercase() } else { 'q' }; v.push(c3.into_iter().collect());
+            v
+        }
+        _ => vec!["?".to_string()],
+    }
+}
+
+fn now() -> u64 { std::time::SystemTime::now().duration_since(std::time::UNIX_EPOCH).unwrap().as_secs() }
+
+/// JSON text of a time claim by kind (None = claim absent). Never within one hour of the real clock.
+fn jwt_claim(kind: &str, cs: u64, salt: u64) -> Option<String> {
+    let n = now();
+    let v = ((cs / 3 + salt) % 4) as usize;
+    Some(match kind {
+        "absent" => return None,
+        "past" => [n - 3600, n - 86400 * 400, 1, 0][v].to_string(),
+        "future" => [n + 3600, n + 86400 * 3650, 4102444800, u64::MAX][v].to_string(),
+        "pastf" => [format!("{}.5", n - 3600), "1.0e9".to_string(), "100000.25".to_string(), format!("{}.0", n - 86400)][v].clone(),
+        "futuref" => [format!("{}.5", n + 3600), "4.0e9".to_string(), "9.9e12".to_string(), format!("{}.0", n + 86400)][v].clone(),
+        "neg" => ["-5", "-1700000000", "-1", "-3600"][v].to_string(),
+        "big" => ["18446744073709551616", "1e30", "99999999999999999999999", "36893488147419103232"][v].to_string(),
+        "str" => [format!("\"{}\"", n + 3600), "\"never\"".to_string(), format!("\"{}\"", n - 3600), "\"\"".to_string()][v].clone(),
+        "null" => "null".to_string(),
+        "junk" => ["true", "false", "[]", "{}"][v].to_string(),
+        _ => "\"?\"".to_string(),
+    })
+}
+
+/// payload JSON text (compact, keys in sorted order: what serde_json writes for the same value)
+fn jwt_payload(tok: &Value, cs: u64, nonce: u64) -> Vec<u8> {
+    let c = |name: &str, salt: u64| jwt_claim(s(&tok[name]), cs, salt).map(|v| format!("\"{name}\":{v},")).unwrap_or_default();
+    let sub = ["u-1", "alice", "böb", "x y"][((cs / 5) % 4) as usize];
+    match s(&tok["pay"]) {
+        "obj" => format!("{{{}{}\"n\":{},{}\"sub\":\"{}\"}}", c("exp", 0), c("iat", 1), nonce, c("nbf", 2), sub),
+        "nested" => format!("{{\"a\":{{\"b\":[1,2,{{\"c\":null}}]}},{}{}\"n\":{},{}\"sub\":\"{}\",\"z\":true}}", c("exp", 0), c("iat", 1), nonce, c("nbf", 2), sub),
+        "arr" => format!("[{nonce},\"two\",{{\"k\":3}}]"),
+        "str" => format!("\"just a string {nonce}\""),
+        "num" => format!("{}", 42 + nonce),
+        "notjson" => format!("{{\"n\":{nonce},\"sub\":"),
+        "empty" => String::new(),
+        _ => "{}".to_string(),
+    }.into_bytes()
+}
+
+fn jwt_header(cfg_alg: &str, tok: &Value, cs: u64) -> String {
+    let v = ((cs / 11) % 3) as usize;
+    let typ = match s(&tok["typ"]) { "JWT" => Some("\"JWT\"".to_string()), "jwt" => Some(["\"jwt\"", "\"Jwt\"", "\"jWT\""][v].to_string()),
+        "other" => Some(["\"JWS\"", "\"at+jwt\"", "\"\""][v].to_string()), "num" => Some("1".to_string()), _ => None };
+    let cty = match s(&tok["cty"]) { "JWT" => Some("\"JWT\"".to_string()), "other" => Some(["\"json\"", "\"text/plain\"", "7"][v].to_string()), _ => None };
+    let alg = match s(&tok["halg"]) {
+        "absent" => None,
+        "none" => Some(["\"none\"", "\"None\"", "\"NONE\""][v].to_string()),
+        "lower" => Some(format!("\"{}\"", cfg_alg.to_ascii_lowercase())),
+        "space" => Some([format!("\"{cfg_alg} \""), format!("\" {cfg_alg}\""), format!("\"{cfg_alg}\\u0000\"")][v].clone()),
+        "num" => Some(cfg_alg[2..].to_string()),
+        "null" => Some("null".to_string()),
+        "arr" => Some(format!("[\"{cfg_alg}\"]")),
+        a => Some(format!("\"{a}\"")),
+    };
+    let f = |k: &str, v: &Option<String>, sep: &str| v.as_ref().map(|v| format!("\"{k}\"{sep}{v}"));
+    let shape = s(&tok["hshape"]);
+    let sep = if shape == "ws" { " : " } else { ":" };
+    let mut fields: Vec<String> = match shape {
+        "algfirst" => vec![f("alg", &alg, sep), f("typ", &typ, sep), f("cty", &cty, sep)],
+        _ => vec![f("typ", &typ, sep), f("alg", &alg, sep), f("cty", &cty, sep)],
+    }.into_iter().flatten().collect();
+    if shape == "extra" { fields.push("\"kid\":\"k-1\"".to_string()) }
+    if shape == "ws" { format!("{{ {} }}", fields.join(" , ")) } else { format!("{{{}}}", fields.join(",")) }
+}
+
+fn other_char(c: u8, k: u64) -> u8 {
+    let i = B64U.iter().position(|x| *x == c).unwrap_or(0);
+    B64U[(i + 1 + (k % 63) as usize) % 64]
+}
+
+/// every concrete token string of a row: `mut` applied to header.payload.signature
+fn jwt_mutants(m: &str, h: &str, p: &str, sg: &str, macb: &[u8], cs: u64, reps: u64) -> Vec<String> {
+    let t = format!("{h}.{p}.{sg}");
+    let parts = [h, p, sg];
+    let join = |x: &[String]| format!("{}.{}.{}", x[0], x[1], x[2]);
+    let part_of = |m: &str| (m.as_bytes()[m.len() - 1] - b'1') as usize;
+    let mut out = vec![];
+    match m {
+        "none" => out.push(t.clone()),
+        "flip1" | "flip2" | "flip3" | "flipall1" | "flipall2" | "flipall3" => {
+            let k = part_of(m);
+            let all = m.starts_with("flipall");
+            if all {   // bytes outside the base64url alphabet, at every position
+                for i in 0..parts[k].len() { for c in [b'=', b'+', b'/', b'.', b' ', b'*', b'~'] {
+                    let mut x: Vec<String> = parts.iter().map(|s| s.to_string()).collect();
+                    let mut b = x[k].clone().into_bytes(); if b[i] == c { continue } b[i] = c; x[k] = String::from_utf8(b).unwrap();
+                    out.push(join(&x));
+                } }
+            }
+            let reps = if all { 63 } else { reps };   // 63 = every other symbol of the alphabet (13 is coprime to 63)
+            for i in 0..parts[k].len() { for r in 0..reps {
+                let mut x: Vec<String> = parts.iter().map(|s| s.to_string()).collect();
+                let mut b = x[k].clone().into_bytes(); b[i] = other_char(b[i], cs.wrapping_mul(31).wrapping_add(i as u64 * 7 + r * 13)); x[k] = String::from_utf8(b).unwrap();
+                out.push(join(&x));
+            } }
+        }
+        "del1" | "del2" | "del3" => {
+            let k = part_of(m);
+            for i in 0..parts[k].len() {
+                let mut x: Vec<String> = parts.iter().map(|s| s.to_string()).collect();
+                x[k].remove(i); out.push(join(&x));
+            }
+        }
+        "ins1" | "ins2" | "ins3" => {
+            let k = part_of(m);
+            for i in 0..=parts[k].len() { for r in 0..reps {
+                let mut x: Vec<String> = parts.iter().map(|s| s.to_string()).collect();
+                x[k].insert(i, B64U[((cs + i as u64 * 5 + r * 17) % 64) as usize] as char); out.push(join(&x));
+            } }
+        }
+        "trunc" => for n in 0..t.len() { out.push(t[..n].to_string()) },
+        "extra" => for e in [".x".to_string(), ".".to_string(), format!(".{sg}"), ".AAAA".to_string(), format!(".{h}"), "..".to_string(), ".x.y".to_string()] { out.push(format!("{t}{e}")) },
+        "siglen" => {
+            let l = macb.len();
+            for s2 in [b64u(&macb[..16]), b64u(&macb[..l - 1]), b64u(&[macb, &[0u8][..]].concat()), b64u(&[macb, macb].concat()), String::new(), b64u(&macb[1..]), b64u(&macb[..l / 2])] { out.push(format!("{h}.{p}.{s2}")) }
+        }
+        "sigstd" => out.push(format!("{h}.{p}.{}", sg.replace('-', "+").replace('_', "/"))),
+        "sigpad" => { out.push(format!("{t}=")); out.push(format!("{t}==")); out.push(format!("{h}.{p}.{}", STANDARD.encode(macb))) }
+        "sigbits" => {
+            let unused = (sg.len() * 6) % 8; // bits of the last symbol that carry no data
+            let mut b = sg.as_bytes().to_vec(); let l = b.len() - 1;
+            let i = B64U.iter().position(|x| *x == b[l]).unwrap();
+            if unused > 0 { for d in 1..(1usize << unused) { let mut c = b.clone(); c[l] = B64U[i ^ d]; out.push(format!("{h}.{p}.{}", String::from_utf8(c).unwrap())) } }
+            else { b[l] = other_char(b[l], cs); out.push(format!("{h}.{p}.{}", String::from_utf8(b).unwrap())) }
+        }
+        "parts" => for x in [format!("{h}.{sg}"), format!("{p}.{sg}"), format!(".{p}.{sg}"), format!("{h}..{sg}"), format!("{p}.{h}.{sg}"), format!("{sg}.{p}.{h}"),
+                             format!("{h}.{p}{sg}"), format!("{h}{p}.{sg}"), format!("{h}.{h}.{sg}"), format!("{h}.{p}.{p}"), format!("{h}.{p}.{h}")] { out.push(x) },
+        "garbage" => {
+            let mut r = Rng::new(cs ^ 0xA5A5);
+            for x in ["", ".", "..", "...", "a.b.c", "null", "undefined", "e30.e30.", "e30.e30.e30"] { out.push(x.to_string()) }
+            out.push(h.to_string()); out.push(format!("{h}.")); out.push(sg.to_string());
+            for _ in 0..8 {
+                let n = r.range(1, 120); let dots = r.below(4);
+                let mut x: String = (0..n).map(|_| B64U[r.below(64)] as char).collect();
+                for _ in 0..dots { let at = r.below(x.len()); x.replace_range(at..at + 1, ".") }
+                out.push(x);
+            }
+            for _ in 0..4 { let n = r.range(1, 60); out.push((0..n).map(|_| (0x21 + r.below(0x5e)) as u8 as char).collect()) }
+        }
+        _ => out.push(format!("?{t}")),
+    }
+    // a "mutant" that is textually the issued token is no mutation (e.g. standard base64 of a 48-byte MAC without '-'/'_')
+    if m != "none" { let orig = format!("{h}.{p}.{sg}"); out.retain(|x| *x != orig) }
+    out
+}
+
+/// header lines carrying the token for a transport kind
+fn jwt_transport(via: &str, getter: &str, t: &str) -> Vec<(String, Vec<u8>)> {
+    let custom = getter == "custom";
+    let name = if custom { "X-Token" } else { "Authorization" };
+    let v = |x: String| x.into_bytes();
+    match via {
+        "std" => vec![(name.into(), v(if custom { t.to_string() } else { format!("Bearer {t}") }))],
+        "nohdr" => vec![],
+        "wronghdr" => if custom { vec![("Authorization".into(), v(format!("Bearer {t}")))] } else { vec![("X-Token".into(), v(t.to_string()))] },
+        "basic" => vec![(name.into(), v(format!("Basic {t}")))],
+        "token" => vec![(name.into(), v(format!("Token {t}")))],
+        "lcscheme" => vec![(name.into(), v(format!("bearer {t}")))],
+        "ucscheme" => vec![(name.into(), v(format!("BEARER {t}")))],
+        "nospace" => vec![(name.into(), v(format!("Bearer{t}")))],
+        "twospace" => vec![(name.into(), v(format!("Bearer  {t}")))],
+        "tab" => vec![(name.into(), v(format!("Bearer\t{t}")))],
+        "rawff" => { let mut x = v(if custom { t.to_string() } else { format!("Bearer {t}") }); x.push(0xFF); vec![(name.into(), x)] }
+        _ => vec![(name.into(), v(format!("Unknown {t}")))],
+    }
+}
+
+fn jwt_router(cfg: &Value, secret: String) -> Result<(VRouter, &'static str), String> {
+    fn tok_from_x(req: &ohkami::Request) -> Option<&str> { req.headers.get("X-Token") }
+    let nested = s(&cfg["mount"]) == "nested";
+    macro_rules! app { ($P:ty, $h:expr) => {{
+        let j: JWT<$P> = match s(&cfg["alg"]) { "HS256" => if secret.len() % 2 == 0 { JWT::default(secret.clone()) } else { JWT::new_256(secret.clone()) },
+            "HS384" => JWT::new_384(secret.clone()), "HS512" => JWT::new_512(secret.clone()), a => return Err(format!("alg {a}")) };
+        let j = if s(&cfg["getter"]) == "custom" { j.get_token_by(tok_from_x, ohkami::openapi::security::SecurityScheme::APIKey("xtoken", ohkami::openapi::security::APIKey::header("X-Token"))) } else { j };
+        let inner = Ohkami::new((j, "/p".GET($h).POST($h)));
+        if nested { finalize(Ohkami::new(("/n".By(inner),))) } else { finalize(inner) }
+    }}; }
+    let r = match s(&cfg["ptype"]) { "typed" => app!(Claims, h_typed), _ => app!(Value, h_value) };
+    Ok((r, if nested { "/n/p" } else { "/p" }))
+}
+
+fn real_issue(cfg: &Value, secret: &str, payload: &[u8]) -> Option<String> {
+    macro_rules! mk { ($P:ty) => {{
+        let v: $P = serde_json::from_slice(payload).ok()?;
+        let j: JWT<$P> = match s(&cfg["alg"]) { "HS256" => JWT::new_256(secret.to_string()), "HS384" => JWT::new_384(secret.to_string()), _ => JWT::new_512(secret.to_string()) };
+        Some(j.issue(v).to_string())
+    }}; }
+    match s(&cfg["ptype"]) { "typed" => mk!(Claims), _ => mk!(Value) }
+}
+
+fn run_jwt(scn: &Value) -> Value {
+    let cs = scn["cs"].as_u64().unwrap_or(0);
+    let reps = scn["reps"].as_u64().unwrap_or(1).max(1);
+    let (cfg, tok) = (&scn["cfg"], &scn["tok"]);
+    let cfg_alg = s(&cfg["alg"]);
+    let secret = jwt_key(s(&cfg["key"]), cs);
+    let (router, path) = match jwt_router(cfg, secret.clone()) { Ok(x) => x, Err(e) => return json!({"kind": "tool-error", "msg": e}) };
+    let method = s(&tok["method"]);
+    let mutation = s(&tok["mut"]);
+    let header = jwt_header(cfg_alg, tok, cs);
+    let h = b64u(header.as_bytes());
+    let mut variants: Vec<(String, Vec<u8>)> = vec![];   // (token string, signed payload bytes)
+    let mut base_token = String::new();
+    let mut issue_eq = "na";
+    for (ki, skey) in jwt_signing_keys(s(&tok["skey"]), &secret).iter().enumerate() {
+        // payload nonce: varied until the signature contains a url-safe-only symbol when the row needs one
+        let mut nonce = cs % 1000;
+        let (payload, p, macb, sg) = loop {
+            let payload = jwt_payload(tok, cs, nonce);
+            let p = b64u(&payload);
+            let macb = mac(s(&tok["salg"]), skey.as_bytes(), format!("{h}.{p}").as_bytes());
+            let sg = b64u(&macb);
+            if mutation != "sigstd" || sg.contains('-') || sg.contains('_') || nonce > cs % 1000 + 200 { break (payload, p, macb, sg) }
+            nonce += 1;
+        };
+        if ki == 0 { base_token = format!("{h}.{p}.{sg}") }
+        for t in jwt_mutants(mutation, &h, &p, &sg, &macb, cs, reps) { variants.push((t, payload.clone())) }
+        // the token the REAL `JWT::issue` produces for the same configuration and payload, when the row describes an issued token
+        let issued_facts = s(&tok["skey"]) == "same" && s(&tok["salg"]) == cfg_alg && s(&tok["halg"]) == cfg_alg && s(&tok["typ"]) == "JWT"
+            && s(&tok["cty"]) == "absent" && s(&tok["hshape"]) == "issue" && mutation == "none";
+        if issued_facts {
+            if let Some(real) = real_issue(cfg, &secret, &payload) {
+                issue_eq = if real == base_token { "same" } else { "diff" };
+                variants.push((real, payload.clone()));
+            }
+        }
+    }
+    let (mut n_same, mut n_diff, mut n_err, mut n_noerr, mut n_panic) = (0, 0, 0, 0, 0);
+    let (mut ex_ran, mut ex_diff, mut ex_err, mut ex_noerr, mut ex_panic) = (String::new(), String::new(), String::new(), String::new(), String::new());
+    let mut statuses: Vec<i64> = vec![];
+    for (t, payload) in &variants {
+        let lines = jwt_transport(s(&tok["via"]), s(&cfg["getter"]), t);
+        let bytes = request_bytes(method, path, &lines);
+        let o = exchange(&router, &bytes, method == "HEAD");
+        let value = lines.first().map(|(k, v)| format!("{k}: {}", show(v))).unwrap_or_else(|| "(no header)".into());
+        if !statuses.contains(&(o.status as i64)) { statuses.push(o.status as i64) }
+        let set = |ex: &mut String| if ex.is_empty() { *ex = value.clone() };
+        if o.panicked { n_panic += 1; set(&mut ex_panic) }
+        else if o.ran {
+            // what "exactly the signed payload" is for the handler's payload type: the JSON value itself, or the struct it decodes to
+            let want: Option<Value> = if s(&cfg["ptype"]) == "typed" { serde_json::from_slice::<Claims>(payload).ok().and_then(|c| serde_json::to_value(c).ok()) }
+                                      else { serde_json::from_slice(payload).ok() };
+            let got: Option<Value> = o.seen.as_deref().and_then(|x| serde_json::from_str(x).ok());
+            if want.is_some() && want == got { n_same += 1; set(&mut ex_ran) } else { n_diff += 1; set(&mut ex_diff) }
+        }
+        else if o.status >= 400 && o.perr.is_empty() { n_err += 1; set(&mut ex_err) }
+        else { n_noerr += 1; set(&mut ex_noerr) }
+        let _ = (&o.headers, o.stage);
+    }
+    statuses.sort();
+    json!({"kind": "jwt", "n": variants.len(), "ran_same": n_same, "ran_diff": n_diff, "err": n_err, "noerr": n_noerr, "panic": n_panic,
+           "statuses": statuses, "issue_eq": issue_eq, "token": util::clip(&base_token, 600), "header": header,
+           "ex": {"ran": ex_ran, "diff": ex_diff, "err": ex_err, "noerr": ex_noerr, "panic": ex_panic}})
+}
+
+// ================================================================================================ entry points
+pub fn run(scn: &Value) -> Value {
+    match s(&scn["mod"]) {
+        "basic" => run_basic(scn),
+        "jwt" => run_jwt(scn),
+        // cross-check of this module's own HMAC / base64 code path (the driver compares with Python's hmac, hashlib, base64)
+        "selfcheck" => {
+            let (key, msg) = (util::unhex(s(&scn["key_hex"])), util::unhex(s(&scn["msg_hex"])));
+            let m = mac(s(&scn["alg"]), &key, &msg);
+            json!({"kind": "selfcheck", "mac_hex": util::hex(&m), "b64url": b64u(&m), "b64std": STANDARD.encode(&m)})
+        }
+        m => json!({"kind": "tool-error", "msg": format!("unknown mod {m}")}),
+    }
+}
+
+// ------------------------------------------------------------------------------------------------ random scenarios
+fn rnd_part(rng: &mut Rng, colon: bool) -> Vec<&'static str> {
+    let n = rng.below(6);
+    (0..n).map(|_| { let a: &[&'static str] = if colon { &["a", "b", "A", "d", "c2", "c3", "c4", ":", ":", "sp"] } else { &["a", "b", "A", "d", "c2", "c3", "c4", "sp"] }; *rng.pick(a) }).collect()
+}
+
+fn gen_basic(rng: &mut Rng) -> Value {
+    let n = rng.range(1, 6);
+    let pairs: Vec<(Vec<&str>, Vec<&str>)> = (0..n).map(|_| (rnd_part(rng, false), rnd_part(rng, true))).collect();
+    let cred = |u: &Vec<&'static str>, p: &Vec<&'static str>| { let mut c = u.clone(); c.push(":"); c.extend(p.iter()); c };
+    let (i, j) = (rng.below(n), rng.below(n));
+    let mut c: Vec<&'static str> = match rng.below(10) {
+        0..=3 => cred(&pairs[i].0, &pairs[i].1),
+        4 => cred(&pairs[i].0, &pairs[j].1),
+        5 => { let mut c = pairs[i].0.clone(); c.extend(pairs[i].1.iter()); c }
+        6 => cred(&pairs[i].1, &pairs[i].0),
+        _ => cred(&pairs[i].0, &pairs[i].1),
+    };
+    match rng.below(8) {   // one-token edits of the credential
+        0 => if !c.is_empty() { let at = rng.below(c.len()); c.remove(at); },
+        1 => { let at = rng.below(c.len() + 1); c.insert(at, *rng.pick(&["a", "b", ":", "c2", "sp"])) }
+        2 => if !c.is_empty() { let at = rng.below(c.len()); c[at] = match c[at] { "a" => "A", "A" => "a", "b" => "d", ":" => "sp", _ => "a" } },
+        _ => {}
+    }
+    let kind = if rng.chance(1, 2) { "basic" } else { *rng.pick(&["basic", "nopad", "noncanon", "lower", "upper", "twospace", "nospace", "tab", "bearer", "digest", "schemeonly", "missing",
+        "badchar", "trailing", "lead", "midpad", "nonutf8_last", "nonutf8_trunc", "nonutf8_mid", "rawff"]) };
+    json!({"mod": "basic", "form": if n == 1 && rng.chance(1, 2) { "single" } else { "array" }, "mount": *rng.pick(&["top", "nested"]),
+           "method": *rng.pick(&["GET", "POST", "GET", "HEAD"]),
+           "pairs": pairs.iter().map(|(u, p)| json!({"u": u, "p": p})).collect::<Vec<_>>(),
+           "hdr": {"kind": kind, "cred": c}, "cs": (rng.next() % 1_000_000) as u64})
+}
+
+fn gen_jwt(rng: &mut Rng) -> Value {
+    const ALGS: &[&str] = &["HS256", "HS384", "HS512"];
+    const CLAIM: &[&str] = &["absent", "absent", "absent", "past", "future", "pastf", "futuref", "neg", "big", "str", "null", "junk"];
+    let alg = *rng.pick(ALGS);
+    // mostly valid along every axis, so that a single deviating fact decides the row
+    let mostly = |rng: &mut Rng, good: &'static str, all: &[&'static str]| if rng.chance(3, 4) { good } else { *rng.pick(all) };
+    let salg = if rng.chance(3, 4) { alg } else { *rng.pick(ALGS) };
+    let halg = if rng.chance(3, 4) { alg } else { *rng.pick(&["HS256", "HS384", "HS512", "none", "absent", "lower", "space", "num", "null", "arr"]) };
+    let pay = mostly(rng, "obj", &["obj", "nested", "arr", "str", "num", "notjson", "empty"]);
+    let claims = matches!(pay, "obj" | "nested");
+    let c = |rng: &mut Rng, ok: &'static str| if !claims { "absent" } else if rng.chance(2, 3) { *rng.pick(&["absent", ok]) } else { *rng.pick(CLAIM) };
+    let (exp, nbf, iat) = (c(rng, "future"), c(rng, "past"), c(rng, "past"));
+    json!({"mod": "jwt",
+        "cfg": {"alg": alg, "key": *rng.pick(&["k1", "k2", "k3"]), "getter": *rng.pick(&["default", "default", "custom"]), "ptype": *rng.pick(&["value", "value", "typed"]), "mount": *rng.pick(&["top", "nested"])},
+        "tok": {"skey": mostly(rng, "same", &["same", "other", "near", "empty"]), "salg": salg, "halg": halg,
+                "typ": mostly(rng, "JWT", &["JWT", "absent", "jwt", "other", "num"]), "cty": mostly(rng, "absent", &["absent", "JWT", "other"]),
+                "hshape": mostly(rng, "issue", &["issue", "algfirst", "extra", "ws"]),
+                "exp": exp, "nbf": nbf, "iat": iat, "pay": pay,
+                "mut": mostly(rng, "none", &["none", "flip1", "flip2", "flip3", "del1", "del2", "del3", "ins1", "ins2", "ins3", "trunc", "extra", "siglen", "sigstd", "sigpad", "sigbits", "parts", "garbage"]),
+                "via": mostly(rng, "std", &["std", "nohdr", "wronghdr", "basic", "token", "lcscheme", "ucscheme", "nospace", "twospace", "tab", "rawff"]),
+                "method": *rng.pick(&["GET", "GET", "GET", "POST", "HEAD", "OPTIONS"])},
+        "cs": (rng.next() % 1_000_000) as u64, "reps": 1 + rng.below(2)})
+}
+
+pub fn gen(rng: &mut Rng, i: usize) -> Value {
+    let which = std::env::var("VH_AUTH_MOD").unwrap_or_default();
+    match which.as_str() { "basic" => gen_basic(rng), "jwt" => gen_jwt(rng), _ => if i % 2 == 0 { gen_basic(rng) } else { gen_jwt(rng) } }
+}
